@@ -573,11 +573,16 @@ class UTPM(Ring, RawAlgorithmsMixIn):
             if numpy.may_share_memory(self.data, rhs.data):
                 # the convolution below reads coefficients of rhs after self has been overwritten
                 rhs = rhs.clone()
+            rhs_data = rhs.data
+            if rhs_data.shape[1] != P:
+                # one direction on the right is used for every direction, like in x * y, x += y, x /= y
+                # (checked before anything is overwritten)
+                rhs_data = numpy.broadcast_to(rhs_data, rhs_data.shape[:1] + (P,) + rhs_data.shape[2:])
             for d in range(D)[::-1]:
                 for p in range(P):
-                    self.data[d,p,...] *= rhs.data[0,p,...]
+                    self.data[d,p,...] *= rhs_data[0,p,...]
                     for c in range(d):
-                        self.data[d,p,...] += self.data[c,p,...] * rhs.data[d-c,p,...]
+                        self.data[d,p,...] += self.data[c,p,...] * rhs_data[d-c,p,...]
         return self
 
     def __itruediv__(self,rhs):
